@@ -122,6 +122,7 @@ UNITS = {
         "src": "src/sql/predicate.rs",
         "anchors": [
             "fn eval_expr(&self, expr: &crate::sql::ast::Expr<'a>, row: &ExecutorRow<'a>) -> bool",
+            "fn eval_value(",
             "fn eval_unary_op(",
             "fn eval_binary_op(",
             "fn value_to_bool(&self, val: &Value<'a>) -> bool",
